@@ -3,7 +3,7 @@
    length :: codes; decimals as sign, mantissa, scale. *)
 From Coq Require Import List NArith ZArith QArith Qcanon Bool.
 From ACB Require Import Base.Outcome Base.QcExtra Base.Fit Base.Arith Model.Tx Model.Ledger Model.Sfl
-     Model.DeltaList Model.App Model.CsvFields Model.CsvTable Model.Summary Exec.Codec.
+     Model.DeltaList Model.App Model.CsvFields Model.CsvTable Model.Summary Model.SummaryObs Exec.Codec.
 Import ListNotations.
 Local Open Scope Z_scope.
 
@@ -190,7 +190,8 @@ Definition run_summary : P (list Z) :=
                      let rerun := run_app A [] (number_from 0 (through_csv sums ++ rows_after latest rows)) in
                      let ds0 := match secs with (_, (ds, _)) :: _ => ds | [] => [] end in
                      [0; obool (K1_of A latest annual ds0); obool (K2_of A latest annual ds0);
-                      obool (K3_of latest ds0); obool (roundtrip_of A latest annual rows ds0);
+                      obool (K3_of latest ds0); obool (K4_of latest ds0); obool (roundtrip_of A latest annual rows ds0);
+                      obool (roundtrip_obs_of A latest annual rows ds0);
                       Z.of_nat (length sums)] ++ flat_map otx sums ++ Z.of_nat (length (oapp rerun)) :: oapp rerun ++ oapp full
                  | Rej e => [2; orej e]
                  | Panic p => 3 :: opanic p
